@@ -16,6 +16,7 @@ CONSTANTS
   ClampDotDot = TRUE
   RestartAbsAtRoot = TRUE
   NoFollowOnOpen = TRUE
+  TrailingSlashIsDirTest = TRUE
   EmptyPathIsENOENT = TRUE
   EmitCases = FALSE
 CONSTRAINT Progress
